@@ -159,6 +159,21 @@ def user_exc(tag, in_coroutine=False, driver="sync"):
     return k(tag)
 
 
+class ListenerProxy:
+    """a listener that delegates everything to an inner object"""
+
+    def __init__(self, inner):
+        self.__dict__["_inner"] = inner
+
+    def __dir__(self):
+        return sorted(set(dir(self.__dict__["_inner"])))
+
+    def __getattr__(self, name):
+        if name.startswith("__") or "_inner" not in self.__dict__:
+            raise AttributeError(name)
+        return getattr(self.__dict__["_inner"], name)
+
+
 class EqTag:
     """carries the harness's trigger number through `**kwargs` while comparing (and hashing) equal to
     every other tag: two sends of one event stay *value-equal* — they are still two events"""
@@ -399,7 +414,7 @@ def legal(scn: Scn):
     """Shapes the generators never produce because they are recorded findings or outside the properties:
     a coroutine callback on a listener that is attached late to a machine running the sync engine (D12)."""
     if not scn.is_async():
-        late = {o[1] for o in scn.ops if o[0] == "add_listener"} - set(scn.listeners_ctor)
+        late = {o[1] for o in scn.ops if o[0] == "add_listener"} - set(scn.listeners_ctor) - {"machine", "model"}
         if any(c.coro for c in scn.cbs if c.provider in late):
             return False
     return True
@@ -560,9 +575,9 @@ def registry_lines(scn: Scn):
                 if not st.final:
                     out.append(tdecl(ti, tr, si))
     # providers: machine, model, listeners; what each offers
-    provs = ["machine", "model"] + sorted({c.provider for c in scn.cbs if c.provider.startswith("L")}
-                                          | set(scn.listeners_ctor)
-                                          | {o[1] for o in scn.ops if o[0] == "add_listener"})
+    provs = ["machine", "model"] + sorted(({c.provider for c in scn.cbs if c.provider.startswith("L")}
+                                           | set(scn.listeners_ctor)
+                                           | {o[1] for o in scn.ops if o[0] == "add_listener"}) - {"machine", "model"})
     pid = {p: i for i, p in enumerate(provs)}
     for p in provs:
         attrs = []
@@ -1091,10 +1106,22 @@ def build(scn: Scn, rt: Runtime, cls_name=None, picklable=False):
     hooks_cls = type("Hooks" + suffix, (), {"__init__": lambda self, **k: self.__dict__.update(k)})
     if hooks:
         lclasses.append(hooks_cls)
-    for p in sorted({c.provider for c in scn.cbs if c.provider.startswith("L")} | set(scn.listeners_ctor)
-                    | {o[1] for o in scn.ops if o[0] == "add_listener"}):
+    for p in sorted(({c.provider for c in scn.cbs if c.provider.startswith("L")} | set(scn.listeners_ctor)
+                     | {o[1] for o in scn.ops if o[0] == "add_listener"}) - {"machine", "model"}):
         if hooks:
             factories[p] = (lambda d: (lambda: hooks_cls(**d)))(dict(listener_ns.get(p, {})))
+        elif scn.listener_kind == "proxy":
+            # a delegating facade: the callbacks live on an inner object, the listener answers `dir()` and attribute
+            # lookups on its behalf (`__dir__` / `__getattr__`): its attribute set is not "instance dict + classes"
+            lc = type("Lst_" + p + suffix, lbase, listener_ns.get(p, {}))
+            lclasses.append(lc)
+            factories[p] = (lambda k: (lambda: ListenerProxy(k())))(lc)
+        elif scn.listener_kind == "inherit":
+            # the callbacks are inherited: defined on a base class of the listener's class
+            lb = type("LstBase_" + p + suffix, lbase, listener_ns.get(p, {}))
+            lc = type("Lst_" + p + suffix, (lb,), {})
+            lclasses += [lb, lc]
+            factories[p] = lc
         else:
             lc = type("Lst_" + p + suffix, lbase, listener_ns.get(p, {}))
             lclasses.append(lc)
@@ -1318,7 +1345,9 @@ class Session:
         if op[0] == "activate":
             return "R", rt.sm.activate_initial_state()
         if op[0] == "add_listener":
-            rt.sm.add_listener(self.listeners[op[1]])
+            # (the model, or the machine itself, may be attached as a listener too: it is a provider already, nothing
+            # of it is registered twice)
+            rt.sm.add_listener(rt.model if op[1] == "model" else rt.sm if op[1] == "machine" else self.listeners[op[1]])
             if len(getattr(self, "ctor_list", [])) != getattr(self, "ctor_len", 0):
                 rt.lines.append("X the list passed as listeners= to the constructor was modified by add_listener")
                 self.ctor_len = len(self.ctor_list)
